@@ -3,6 +3,7 @@ import io, os, sys, tempfile, shutil, atexit, hashlib
 from hypothesis import strategies as st
 from vlib.harness import Phase, Violation, blame_lark
 import lark
+import lark.load_grammar
 from lark import Lark
 from lark.exceptions import UnexpectedInput, GrammarError
 
@@ -11,7 +12,7 @@ LEVEL = 'fault_enumeration'
 RULE = ('(1) exhaustive: for 3 grammars (cache files of 1-6 kB) every truncation offset of a valid cache file; (2) single-byte '
         'substitutions: every offset x 3 replacement values for three grammars in the quick tier (4 values thorough), '
         '(3) generated histories on one cache path: build(grammar_i, options_j), rewrite the imported module with other content, '
-        'delete, truncate, corrupt bytes, swap in a file written for another grammar/options, switch import_paths to another directory that holds a same-named module, change lark.__version__ / '
+        'delete, truncate, corrupt bytes, swap in a file written for another grammar/options, switch import_paths to another directory or to a package (FromPackageLoader) that holds a same-named module, change lark.__version__ / '
         'sys.version_info. After every build: no exception; behaviour on probe inputs equals an uncached build with the current files; '
         'a following identical build is a cache hit (load_grammar patched to raise) with the same behaviour. Non-trivial = build that '
         'found the file damaged or stale; distinct = (grammar, file state)')
@@ -76,8 +77,16 @@ class World(object):
         os.makedirs(self.dir)
         self.cache = os.path.join(self.dir, 'cache.bin')
         # two import directories holding a same-named module: switching between them changes only the import_paths option
-        self.dirs = [os.path.join(self.dir, 'a'), os.path.join(self.dir, 'b')]
+        # third source: the same module inside a Python package, imported through FromPackageLoader (its files are recorded
+        # in the cache under PackageResource keys, not paths)
+        pkg = os.path.join(self.dir, 'c12pkg')
+        self.dirs = [os.path.join(self.dir, 'a'), os.path.join(self.dir, 'b'), os.path.join(pkg, 'grammars')]
         for d_ in self.dirs: os.makedirs(d_)
+        with open(os.path.join(pkg, '__init__.py'), 'w') as f: f.write('')
+        if self.dir not in sys.path: sys.path.insert(0, self.dir)
+        sys.modules.pop('c12pkg', None)
+        import importlib; importlib.invalidate_caches()
+        self.active = 2; self.set_module(1)
         self.active = 1; self.set_module(2)
         self.active = 0; self.set_module(0)
         self.version = None; self.pyver = None
@@ -89,7 +98,8 @@ class World(object):
 
     def build(self, gi, oi, cached, must_hit=False):
         _n, g, _w = GRAMMARS[gi]
-        opts = dict(OPTIONS[oi]); opts['import_paths'] = [self.dirs[self.active]]
+        opts = dict(OPTIONS[oi])
+        opts['import_paths'] = [lark.load_grammar.FromPackageLoader('c12pkg', ('grammars',))] if self.active == 2 else [self.dirs[self.active]]
         if cached: opts['cache'] = self.cache
         real_lg = lark.lark.load_grammar
         saved = (lark.__version__, sys.version_info)
@@ -210,7 +220,7 @@ def histories(draw):
         elif k == 'corrupt': ops.append(['corrupt', draw(st.integers(0, 64)), draw(st.integers(1, 255))])   # inside the header line
         elif k == 'foreign': ops.append(['foreign', draw(st.integers(0, len(GRAMMARS) - 1)), draw(st.integers(0, len(OPTIONS) - 1)), draw(st.integers(0, len(MODULES) - 1))])
         elif k == 'version': ops.append(['version', draw(st.sampled_from([None, '9.9.9', '1.3.0']))])
-        elif k == 'switchdir': ops.append(['switchdir', draw(st.integers(0, 1))])
+        elif k == 'switchdir': ops.append(['switchdir', draw(st.integers(0, 2))])
         else: ops.append(['delete'])
     ops.append(['build', draw(st.integers(0, len(GRAMMARS) - 1)), draw(st.integers(0, len(OPTIONS) - 1))])
     return {'ops': ops}
